@@ -117,6 +117,8 @@ def run(case, ctx, rng):
             M2 = pattern(rng, case['ml'] + 3, 'rand')
             ctx.eq('hmac==rfc2104', call(mac, M2), ref(name, K, M2), h=name, K=K, M=M2, reuse=1)
             ctx.eq('hmac==rfc2104', call(mac, M), ref(name, K, M), h=name, K=K, M=M, reuse=2)
+            from vmon.core import mutable_arg
+            mutable_arg(ctx, 'hmac==rfc2104', (lambda buf: mac(buf)), M, ref(name, K, M), h=name, K=K)
     elif case['k'] == 'siblings':
         from vmon.core import siblings
         ctx.cls((name, 'siblings', case['j'] % 3))
